@@ -14,6 +14,9 @@ fn is_name_start(c: char) -> bool {
 
 fn is_name_char(c: char) -> bool { is_name_start(c) || matches!(c, '-' | '.' | '0'..='9' | '\u{B7}' | '\u{300}'..='\u{36F}' | '\u{203F}'..='\u{2040}') }
 
+/// XML 1.0 Char: the only characters a 1.0 document may contain, literally or as a reference.
+fn is_char_10(u: u32) -> bool { matches!(u, 0x9 | 0xA | 0xD | 0x20 ..= 0xD7FF | 0xE000 ..= 0xFFFD | 0x1_0000 ..= 0x10_FFFF) }
+
 /// XML 1.1 Char that may appear literally (RestrictedChar must be a character reference).
 fn is_literal_char(c: char) -> bool {
     let u = c as u32;
@@ -29,6 +32,8 @@ fn is_ref_char(u: u32) -> bool { u != 0 && u != 0xFFFE && u != 0xFFFF && char::f
 struct P<'a> {
     s: &'a str,
     i: usize,
+    /// the document declares version 1.1 (without a declaration, or with "1.0", the 1.0 rules apply)
+    v11: bool,
 }
 
 impl<'a> P<'a> {
@@ -83,8 +88,8 @@ impl<'a> P<'a> {
             let end = self.rest().find(';').ok_or("unterminated character reference")?;
             let v = u32::from_str_radix(&self.rest()[.. end], 16).map_err(|_| "bad hex character reference".to_string())?;
             self.i += end + 1;
-            if !is_ref_char(v) {
-                return Err(format!("character reference &#x{v:x}; is not a legal XML 1.1 character"));
+            if !(if self.v11 { is_ref_char(v) } else { is_char_10(v) }) {
+                return Err(format!("character reference &#x{v:x}; is not a legal XML {} character", if self.v11 { "1.1" } else { "1.0" }));
             }
             return Ok(char::from_u32(v).unwrap());
         }
@@ -92,8 +97,8 @@ impl<'a> P<'a> {
             let end = self.rest().find(';').ok_or("unterminated character reference")?;
             let v: u32 = self.rest()[.. end].parse().map_err(|_| "bad decimal character reference".to_string())?;
             self.i += end + 1;
-            if !is_ref_char(v) {
-                return Err(format!("character reference &#{v}; is not a legal XML 1.1 character"));
+            if !(if self.v11 { is_ref_char(v) } else { is_char_10(v) }) {
+                return Err(format!("character reference &#{v}; is not a legal XML {} character", if self.v11 { "1.1" } else { "1.0" }));
             }
             return Ok(char::from_u32(v).unwrap());
         }
@@ -123,7 +128,7 @@ impl<'a> P<'a> {
                     self.i += 1;
                     self.reference()?;
                 }
-                Some(c) if !is_literal_char(c) => return Err(format!("illegal literal character U+{:04X} in attribute value", c as u32)),
+                Some(c) if !(if self.v11 { is_literal_char(c) } else { is_char_10(c as u32) }) => return Err(format!("illegal literal character U+{:04X} in attribute value", c as u32)),
                 Some(c) => self.i += c.len_utf8(),
             }
         }
@@ -201,7 +206,7 @@ impl<'a> P<'a> {
                     text.push(self.reference()?);
                 }
                 Some(c) => {
-                    if !is_literal_char(c) {
+                    if !(if self.v11 { is_literal_char(c) } else { is_char_10(c as u32) }) {
                         return Err(format!("illegal literal character U+{:04X} in character data of <{name}>", c as u32));
                     }
                     if self.rest().starts_with("]]>") {
@@ -211,12 +216,12 @@ impl<'a> P<'a> {
                     // XML 1.1 section 2.11: literal line ends are normalised to a line feed
                     match c {
                         '\r' => {
-                            if matches!(self.peek(), Some('\n' | '\u{85}')) {
+                            if matches!(self.peek(), Some('\n')) || (self.v11 && self.peek() == Some('\u{85}')) {
                                 self.i += self.peek().unwrap().len_utf8();
                             }
                             text.push('\n');
                         }
-                        '\u{85}' | '\u{2028}' => text.push('\n'),
+                        '\u{85}' | '\u{2028}' if self.v11 => text.push('\n'),
                         _ => text.push(c),
                     }
                 }
@@ -243,7 +248,7 @@ pub fn has_key_that_is_no_name(v: &serde_json::Value) -> bool {
 
 /// Parse a complete document; returns the root element.
 pub fn parse(doc: &str) -> Result<Node, String> {
-    let mut p = P { s: doc, i: 0 };
+    let mut p = P { s: doc, i: 0, v11: false };
     if p.eat("<?xml") {
         if !p.ws() {
             return Err("malformed XML declaration".into());
@@ -262,6 +267,7 @@ pub fn parse(doc: &str) -> Result<Node, String> {
         if ver != "1.0" && ver != "1.1" {
             return Err(format!("unsupported XML version {ver:?}"));
         }
+        p.v11 = ver == "1.1";
         let end = p.rest().find("?>").ok_or("unterminated XML declaration")?;
         p.i += end + 2;
     }
